@@ -22,8 +22,7 @@ A *state* is the set of definitions of the tracked variable that may be current 
 `finally` bodies are run once for every way the protected part is left (normal, break, continue, return,
 exception) and continue that way unless they leave differently themselves.
 -/
-namespace Pya
-namespace Sc
+namespace Pya.C09
 
 def union (a b : List Node) : List Node := a ++ b.filter (fun n => !a.contains n)
 
@@ -171,12 +170,11 @@ def Stmt.isJump : Stmt → Bool
   | _ => false
 
 mutual
-/-- no `try`, no `with`, no `break`; loops are `while c:` / `for …:` (not `always_entered`) without `else`;
-no statement follows a `continue` / `return` / `raise` in the same block -/
+/-- no `try`, no `with`; loops are `while c:` / `for …:` (not `always_entered`) without `else`;
+no statement follows a `break` / `continue` / `return` / `raise` in the same block -/
 def Stmt.simple : Stmt → Bool
   | .ite t e => t.simple && e.simple
   | .loop _ a b e => !a && e.isNil && b.simple
-  | .brk _ => false
   | .try_ _ _ _ _ _ => false
   | .with_ _ _ => false
   | _ => true
@@ -468,8 +466,12 @@ end
 
 /-- **R1** `loopElse`: the `else` block of a loop is visited from the pre-loop state. -/
 def D09_loopElse (p : Block) : Bool := p.hasLoopElse
-/-- **R2** `secondVisitSeed`: the collect-phase second visit of a loop body is seeded with the after-loop state. -/
-def D09_secondVisitSeed (p : Block) : Bool := p.hasBreak || p.hasWhileTrue
+/-- **R2** `secondVisitSeed`: the collect-phase second visit of a loop body is seeded with the after-loop state;
+for `while True` that state does not contain the state before the loop (unsound and imprecise). -/
+def D09_secondVisitSeed (p : Block) : Bool := p.hasWhileTrue
+/-- **R2b** `loopBreak` (precision only): same root cause; the after-loop state contains the states at `break`
+statements, which flow back into the body on the second visit. -/
+def D09_loopBreak (p : Block) : Bool := p.hasBreak
 /-- **R3** `jumpThroughFinally`: `break` / `continue` / `return` inside `try … finally` is recorded before the
 `finally` body ran. -/
 def D09_jumpThroughFinally (p : Block) : Bool := p.jumpInFinally
@@ -489,5 +491,4 @@ subscope that is thrown away (the exception is assumed to propagate); a `break` 
 body swallows the exception and continues with that state. -/
 def D09_jumpOutOfFinally (p : Block) : Bool := p.jumpOutOfFinally
 
-end Sc
-end Pya
+end Pya.C09
